@@ -783,7 +783,7 @@ def run(ctx):
                 '(real == called); '
                 'distinct non-trivial = distinct tree with >=2 nodes (row of the pair matrix).  (b) dags: triples '
                 '(every graph held by a random one of the 4 graph classes; 25% draw params from a list that includes the big '
-                'ones; 30 [thorough 300] triples are large graphs of 17-60 nodes whose near-miss exchanges the parent '
+                'ones; 30 [thorough 120] triples are large graphs of 17-60 nodes whose near-miss exchanges the parent '
                 'lists of two equally labelled nodes; g1 [18%: some nodes are deepcopies of other nodes of the same graph = distinct objects with one uid], '
                 'presentation g2 of g1 [deepcopy / relisted / parents reordered / rebuilt with fresh uids], '
                 'g3 = another presentation or a near-miss mutation); one evaluation = one unordered pair of the '
@@ -818,7 +818,7 @@ def run(ctx):
     ctx.set_exhaustive('trees-big-params', True)
     # large trees (17-60 nodes) in families: a random tree, 2 isomorphic presentations, up to 3 trees in which
     # branches were exchanged between equally labelled places (same multiset of node neighbourhoods)
-    big = big_tree_pool(ctx.rng, ctx.budget(10, 40))
+    big = big_tree_pool(ctx.rng, ctx.budget(10, 24))
     run_tree_pool(ctx, 'trees-large', big, workers=1,
                   classes=[('LinkedGraph', 'OptGraph')[i % 2] for i in range(len(big))])
     ctx.set_exhaustive('trees-large', False)
@@ -851,7 +851,7 @@ def run(ctx):
     ctx.notes.append('probe params-key-order: name q, params {a:1,b:2} vs {b:2,a:1} (equal dicts): == gives %s, ids %r / %r'
                      % (p1 == p2, p1.descriptive_id, p2.descriptive_id))
     # ---- (b)
-    run_dags(ctx, ctx.budget(1700, 36000), n_large=ctx.budget(30, 300))
+    run_dags(ctx, ctx.budget(1700, 36000), n_large=ctx.budget(30, 120))
     ctx.set_exhaustive('dags', False)
 
 
